@@ -107,6 +107,11 @@ fn main() {
                     let mut v = c.clone();
                     v.id = format!("{}~cut{}", c.id, cut);
                     v.files = vec![rows[..cut].to_vec(), rows[cut..].to_vec()];
+                    if n % 4 == 0 && rows.len() - cut >= 2 {
+                        // ... or into three
+                        let cut2 = cut + 1 + (n / 4) % (rows.len() - cut - 1);
+                        v.files = vec![rows[..cut].to_vec(), rows[cut..cut2].to_vec(), rows[cut2..].to_vec()];
+                    }
                     v.hdr = Vec::new();
                     cut_variants.push(v);
                 }
